@@ -106,7 +106,7 @@ class InsecureHomeKitProtocol(asyncio.Protocol):
         self.transport = transport
 
     def connection_lost(self, exception: Exception) -> None:
-        self.connection._connection_lost(exception)
+        self.connection._connection_lost(exception, self)
         self._cancel_pending_requests()
 
     def _handle_timeout(self, fut: asyncio.Future[Any]) -> None:
@@ -568,10 +568,19 @@ class HomeKitConnection:
         self._drop_transport()
         self.is_secure = None
 
-    def _connection_lost(self, exception: Exception) -> None:
+    def _connection_lost(
+        self,
+        exception: Exception,
+        protocol: InsecureHomeKitProtocol | None = None,
+    ) -> None:
         """
         Called by a Protocol instance when eof_received happens.
         """
+        if protocol is not None and getattr(protocol, "transport", None) is not self.transport:
+            # A connection we already abandoned (dropped or replaced) finished
+            # closing: it must not tear down or restart anything.
+            logger.debug("Abandoned connection lost to %r: %s", self, exception)
+            return
         logger.debug("Connection lost to %r: %s", self, exception)
         self._drop_transport()
         if self.closing:
